@@ -252,8 +252,15 @@ def step (d : DS) (line : String) : DS × String :=
         let (s2, rb) := doTx d.env s1 (ledgerH d) (arg 1)
         ({ d with s := s2 }, ra.toString ++ "," ++ rb.toString)
     | "balrace" =>
-      let (s', r) := doTx d.env d.s (ledgerH d) (arg 1)
-      ({ d with s := s' }, r.toString)
+      -- pre=<t>: an admission before the racing pair
+      match (getKV kv "pre").toNat? with
+      | some p =>
+        let (s0, r0) := doTx d.env d.s (ledgerH d) p
+        let (s', r) := doTx d.env s0 (ledgerH d) (arg 1)
+        ({ d with s := s' }, r0.toString ++ "," ++ r.toString)
+      | none =>
+        let (s', r) := doTx d.env d.s (ledgerH d) (arg 1)
+        ({ d with s := s' }, r.toString)
     | "play" =>
       let (s', r) := play (verifyEnv d) d.s (ledgerH d) (d.env.block (arg 0))
       ({ d with s := s' }, if r == .ok then "ok" else "fail")
